@@ -212,13 +212,14 @@ type c17Out struct {
 }
 
 type c17Cfg struct {
-	mode  string
-	keys  []string
-	outs  []c17Out
-	pred  *c17Pred
-	style int64
-	ttl   bool
-	stats bool
+	mode   string
+	keys   []string
+	outs   []c17Out
+	pred   *c17Pred
+	style  int64
+	ttl    bool
+	stats  bool
+	outbuf int
 }
 
 func c17ParseCfg(c Case) (*c17Cfg, bool) {
@@ -232,6 +233,8 @@ func c17ParseCfg(c Case) (*c17Cfg, bool) {
 			cfg.ttl = true
 		case "stats":
 			cfg.stats = true
+		case "outbuf":
+			cfg.outbuf = 1
 		case "mode":
 			if len(l) > 1 {
 				cfg.mode = l[1]
@@ -402,14 +405,21 @@ func c17WindowConfig(cfg *c17Cfg, cb func([]types.Row)) types.WindowConfig {
 	if cfg.ttl {
 		ttl = 10 * time.Second
 	}
+	var perf types.PerformanceConfig
+	if cfg.outbuf > 0 {
+		// an output channel of one slot that nobody reads (results are taken by the callback): it overflows at the second
+		// firing and keeps overflowing — what is delivered through the callback does not depend on it
+		perf.BufferConfig.WindowOutputSize = cfg.outbuf
+	}
 	return types.WindowConfig{
-		CountStateTTL:    ttl,
-		Type:             window.TypeGlobal,
-		GroupByKeys:      cfg.keys,
-		SelectFields:     sel,
-		FieldAlias:       alias,
-		TriggerCondition: cfg.pred.render(rng, false, "", rng.Intn(3) == 0),
-		Callback:         cb,
+		PerformanceConfig: perf,
+		CountStateTTL:     ttl,
+		Type:              window.TypeGlobal,
+		GroupByKeys:       cfg.keys,
+		SelectFields:      sel,
+		FieldAlias:        alias,
+		TriggerCondition:  cfg.pred.render(rng, false, "", rng.Intn(3) == 0),
+		Callback:          cb,
 	}
 }
 
@@ -832,6 +842,10 @@ func (c17) Gen(rng *rand.Rand, tier string, idx int) Case {
 			op = append(op, hx("id"), "i:"+itoa(int64(i+1)))
 		}
 		c.Ops = append(c.Ops, op)
+	}
+	if mode != "sql" && rng.Intn(3) == 0 {
+		c.Cfg = append(c.Cfg, []string{"outbuf", "1"})
+		c.Stat = append(c.Stat, "unread-output-channel-of-one-slot")
 	}
 	if mode == "sql" && rng.Intn(3) == 0 {
 		c.Cfg = append(c.Cfg, []string{"stats", "1"})
